@@ -97,8 +97,16 @@ def apply_op(Food, op, x, y):
         return x[1]
     if op == "GetItemNp":
         return x[np.int64(1)]
-    if op == "Sum":
+    if op in ("Sum", "Sum1"):
         return x.get_nutrients_sum()
+    if op == "MinAll1":
+        return x.get_min_all_months()
+    if op == "MaxAll1":
+        return x.get_max_all_months()
+    if op == "GetMonth0":
+        return x.get_month(0)
+    if op == "Running1":
+        return x.get_running_total_nutrients_sum()
     if op == "MinAll":
         return x.get_min_all_months()
     if op == "MaxAll":
